@@ -80,8 +80,9 @@ func ruleDiskWriterFlags(c *Ctx, rule string) {
 func ruleStreamCopy(c *Ctx, rule string, f *ssa.Function) {
 	// the reader/writer/io.Copy sequence may live in a private helper
 	hasCopy := func(g *ssa.Function) bool { return len(CallsTo(g, "io.Copy")) > 0 }
+	orig := f
 	if !hasCopy(f) {
-		for _, g := range reachableSamePkg(f, 2) {
+		for _, g := range reachableSamePkg(f, 3) {
 			if hasCopy(g) {
 				c.Note("%s delegates the copy to %s", fname(f), fname(g))
 				f = g
@@ -105,6 +106,26 @@ func ruleStreamCopy(c *Ctx, rule string, f *ssa.Function) {
 			readerOpen = call
 		case ci.Method != nil && ci.Method.Name() == "Writer":
 			writerOpen = call
+		}
+	}
+	if copyCall != nil && (readerOpen == nil || writerOpen == nil) {
+		// the streams are opened in one helper and copied in another (open pair / transfer)
+		for _, g := range append([]*ssa.Function{orig}, reachableSamePkg(orig, 3)...) {
+			var ro, wo *ssa.Call
+			for _, ci := range Calls(g) {
+				if call, _ := ci.Instr.(*ssa.Call); call != nil && ci.Method != nil {
+					switch ci.Method.Name() {
+					case "Reader":
+						ro = call
+					case "Writer":
+						wo = call
+					}
+				}
+			}
+			if ro != nil && wo != nil {
+				ruleStreamCopySplit(c, rule, g, ro, wo, f, copyCall)
+				return
+			}
 		}
 	}
 	if copyCall == nil || readerOpen == nil || writerOpen == nil {
@@ -452,6 +473,35 @@ func ruleMemWriterTruncates(c *Ctx, rule string) {
 			}
 			return false
 		}
+		// the open logic may have moved into a private helper whose result Writer returns
+		hasReset := func(g *ssa.Function) bool {
+			found := false
+			eachInstr(g, func(_ *ssa.BasicBlock, _ int, in ssa.Instruction) {
+				if isReset(in) {
+					found = true
+				}
+			})
+			return found
+		}
+		if !hasReset(mw) {
+			for _, g := range reachableSamePkg(mw, 2) {
+				if hasReset(g) && g.Signature.Results().Len() == mw.Signature.Results().Len() {
+					delegated := false
+					for _, r := range returnsOf(mw) {
+						if ex, ok := resolve(r.Results[0]).(*ssa.Extract); ok {
+							if call, ok := ex.Tuple.(*ssa.Call); ok && call.Call.StaticCallee() == g {
+								delegated = true
+							}
+						}
+					}
+					if delegated {
+						c.Note("memfs Writer delegates to %s", fname(g))
+						mw = g
+						break
+					}
+				}
+			}
+		}
 		exits := RunPaths(mw, nil, 0, func(st int, in ssa.Instruction, d bool) int {
 			if isReset(in) {
 				return 1
@@ -474,4 +524,120 @@ func ruleMemWriterTruncates(c *Ctx, rule string) {
 			"the writer returned at "+bad+" is handed out without the existing content having been reset at open time — a writer over an existing file appends to it, or an empty stream leaves the old content")
 	}
 
+}
+
+// ruleStreamCopySplit: the same discipline when the streams are opened in one
+// function (O) and copied/closed in another (T) that receives them.
+func ruleStreamCopySplit(c *Ctx, rule string, O *ssa.Function, readerOpen, writerOpen *ssa.Call, T *ssa.Function, copyCall *ssa.Call) {
+	name := fname(T)
+	ofacts := factsFor(O)
+	srcFirst := dominates(readerOpen, writerOpen) && callErrKnownNil(ofacts, readerOpen, writerOpen.Block())
+	c.Check(srcFirst, rule, "source opened before destination in "+fname(O), writerOpen.Pos(), "the writer is opened on the nil edge of the reader's open",
+		"the destination writer is opened before the source reader is known to be available — a copy whose source is missing fails, but has already created or emptied the destination (behind a cache that empty file is journaled and committed over the remote one)")
+	// O: once the reader is open, every failing return closes it
+	rvalO := resultN(readerOpen, 0)
+	ei := errResultIndex(O.Signature)
+	leak := ""
+	for _, e := range MustPassF(O, readerOpen, func(in ssa.Instruction) bool {
+		ci := callInfo(in, nil, 0)
+		return ci != nil && (closesOneOf(ci, rvalO) || closesFieldHolding(ci, rvalO))
+	}, func(st int, pred, succ *ssa.BasicBlock) bool {
+		return !knownNilIn(factsOnEdge(ofacts, pred, succ), firstOr(resultN(readerOpen, 1)), false)
+	}) {
+		r, isR := e.Instr.(*ssa.Return)
+		if !isR || ei < 0 {
+			continue
+		}
+		if ofacts.HoldsOnAllEdges(r.Block(), func(fs factSet) bool { return knownNilIn(fs, r.Results[ei], false) }) {
+			leak = c.pos(r.Pos())
+		}
+	}
+	c.Check(leak == "", rule, "reader closed when the pair cannot be opened in "+fname(O), readerOpen.Pos(), "every failing return after the reader was opened closes it",
+		"the failing return at "+leak+" leaves the source reader open (on a memory filespace the file stays locked)")
+	// T: io.Copy(w, r) with w, r handed in
+	facts := factsFor(T)
+	w := unwrapChange(resolve(copyCall.Call.Args[0]))
+	r := unwrapChange(resolve(copyCall.Call.Args[1]))
+	wv, rv := []ssa.Value{w}, []ssa.Value{r}
+	var closeW *ssa.Call
+	for _, ci := range Calls(T) {
+		call, _ := ci.Instr.(*ssa.Call)
+		if call == nil || !closesOneOf(ci, wv) {
+			continue
+		}
+		if len(*call.Referrers()) > 0 && dominates(copyCall, call) {
+			closeW = call
+		}
+	}
+	copyErr := resultN(copyCall, 1)
+	ok, why := true, ""
+	switch {
+	case len(copyErr) == 0:
+		ok, why = false, "the error of io.Copy is dropped"
+	case !failingEdgeAlwaysReturns(T, copyErr[0]):
+		ok, why = false, "the error of io.Copy is not tested with its failing edge returning"
+	case closeW == nil:
+		ok, why = false, "the error of closing the destination writer is dropped (a failing flush on close is reported as success)"
+	}
+	if ok {
+		for _, ret := range returnsOf(T) {
+			v := resolve(ret.Results[len(ret.Results)-1])
+			copyNil := facts.KnownNil(ret.Block(), copyErr[0], true)
+			closeNil := facts.KnownNil(ret.Block(), closeW, true)
+			switch {
+			case v == ssa.Value(closeW):
+				if !copyNil {
+					ok, why = false, "the writer's Close result is returned on a path where io.Copy's error was not established nil"
+				}
+			case facts.KnownNil(ret.Block(), v, false):
+			default:
+				if !(copyNil && closeNil) {
+					ok, why = false, "a possibly-nil value is returned at "+c.pos(ret.Pos())+" without both errors being established nil"
+				}
+			}
+		}
+	}
+	c.Check(ok, rule, "copy discipline of "+name, T.Pos(), "io.Copy's and the writer Close's errors are tested, returned on failure, and both nil on success", why+" — the destination is not a complete copy although the helper reports success")
+	for _, pair := range []struct {
+		vals []ssa.Value
+		what string
+	}{{rv, "reader"}, {wv, "writer"}} {
+		vals := pair.vals
+		bad := MustPass(T, nil, func(in ssa.Instruction) bool {
+			ci := callInfo(in, nil, 0)
+			return ci != nil && closesOneOf(ci, vals)
+		})
+		c.Check(len(bad) == 0, rule, pair.what+" closed on every path in "+name, T.Pos(), "Close on every path", "a return is reachable with the "+pair.what+" still open (on a memory filespace the file stays locked)")
+	}
+}
+
+// closesFieldHolding: Close on a load of a struct field into which one of vals was stored.
+func closesFieldHolding(ci *CallInfo, vals []ssa.Value) bool {
+	if ci.Method == nil || ci.Method.Name() != "Close" {
+		return false
+	}
+	ld, ok := ci.Recv().(*ssa.UnOp)
+	if !ok {
+		return false
+	}
+	fa, ok := ld.X.(*ssa.FieldAddr)
+	if !ok {
+		return false
+	}
+	for _, r := range *fa.X.Referrers() {
+		fa2, ok := r.(*ssa.FieldAddr)
+		if !ok || fa2.Field != fa.Field {
+			continue
+		}
+		for _, rr := range *fa2.Referrers() {
+			if st, isSt := rr.(*ssa.Store); isSt && st.Addr == ssa.Value(fa2) {
+				for _, v := range vals {
+					if st.Val == v || resolve(st.Val) == v {
+						return true
+					}
+				}
+			}
+		}
+	}
+	return false
 }
